@@ -174,6 +174,8 @@ def _run_main(ctx):
             ph = np.random.default_rng(seed).uniform(0, 2 * np.pi, (M,))
             body = "%s %s %s" % (C.flist(f), C.flist(E), C.flist(ph))
             cmd = "ss1"
+        m["lead"] = rng.random() < 0.35
+        case["lead"] = m["lead"]
         case.update({"fs": C.fx(fs), "n": n, "n_float": m["n_float"], "components": comps, "seed": seed,
                      "seed2": seed2, "scale": C.fx(scale)})
         if N <= 2048:
@@ -227,6 +229,7 @@ def _run_main(ctx):
         M = N // 2
         rep0 = {"op": "surface_timeseries", "sampling_frequency": fs, "signal_length": float(n) if m["n_float"] else n,
                 "seed": m["seed"], "frequency": f, "variance_density": m["E"]}
+        rep0["leading_time_dimension_of_length_one"] = bool(m.get("lead"))
         if m["two_d"]:
             rep0["direction"] = m["dirs"]
         ctx.tally("grid:" + m["grid"])
@@ -296,7 +299,9 @@ def _run_main(ctx):
             ctx.count(key, nontriv)
             ctx.tally("component:" + comp)
             # ---- lengths and time axis (implementation alone)
-            if len(t) != len(z) or len(z) != N or r["shape"] != [N] or r["tshape"] != [N]:
+            if m.get("lead"):
+                ctx.tally("spectrum with a leading time dimension of length one")
+            if len(t) != len(z) or len(z) != N or r["shape"] != ([1, N] if m.get("lead") else [N]) or r["tshape"] != [N]:
                 ctx.oracle_fail("len(time)=%d len(series)=%d shape %s, expected nfft=%d" % (len(t), len(z), r["shape"], N),
                                 rep)
                 continue
